@@ -75,6 +75,8 @@ type c16Node struct {
 	mode string
 }
 
+var c16DialTimeout = 20 * time.Millisecond
+
 func c16Start(mode string, mgr, enabled, force bool, paddr, laddr string) (*c16Node, error) {
 	n := &c16Node{dir: tmpDir("c16-"), mode: mode}
 	if err := writeManifest(n.dir, 100000000, 1000, nil); err != nil {
@@ -91,7 +93,7 @@ func c16Start(mode string, mgr, enabled, force bool, paddr, laddr string) (*c16N
 		rc := replication.DefaultReplicaConfig()
 		// the replica's own loop dials a dead address once and then waits; keep the dial short
 		// (Connect holds the replica's mutex while dialling, GetNodeInfo and Stop need it)
-		rc.Connection.DialTimeout = 20 * time.Millisecond
+		rc.Connection.DialTimeout = c16DialTimeout
 		rc.Connection.RetryBaseDelay = time.Hour
 		rc.Connection.RetryMaxDelay = time.Hour
 		cfg := &replication.ManagerConfig{Enabled: enabled, Mode: mode, PrimaryAddr: paddr, ListenAddr: laddr,
@@ -596,6 +598,33 @@ func runC16Race(c *Case, out func(string)) {
 }
 
 // ---------------------------------------------------------------------------------------
+// side observation F3: how long GetNodeInfo takes on a replica that is dialling its primary
+// (DefaultPrimaryConnector.Connect holds Replica.mu for the whole blocking dial; GetNodeInfo
+// needs it through Replica.GetLastAppliedSequence). Not part of the property: NOTE only.
+// ---------------------------------------------------------------------------------------
+
+func runC16InfoLatency(c *Case, out func(string)) {
+	out("X infolat")
+	old := c16DialTimeout
+	c16DialTimeout = 600 * time.Millisecond
+	defer func() { c16DialTimeout = old }()
+	n, err := c16Start("replica", true, true, true, "127.0.0.1:1", "127.0.0.1:0")
+	if err != nil {
+		out("IMPL-ERROR start " + err.Error())
+		return
+	}
+	defer n.stop()
+	time.Sleep(100 * time.Millisecond) // let the replica's loop enter the dial
+	t0 := time.Now()
+	_, err = n.rpc("GetNodeInfo", rpcArgs{})
+	d := time.Since(t0)
+	_, gerr := n.rpc("Get", rpcArgs{k: []byte("a")})
+	out(fmt.Sprintf("NOTE GetNodeInfo on a replica whose primary is unreachable took %d ms (dial timeout 600 ms; the default is 10 s) err=%v; a Get at the same time err=%v", d.Milliseconds(), err, gerr))
+	out("ORACLE ok")
+	out(fmt.Sprintf("META kind=infolat latency_ms=%d nontrivial=0", d.Milliseconds()))
+}
+
+// ---------------------------------------------------------------------------------------
 // programs
 // ---------------------------------------------------------------------------------------
 
@@ -616,6 +645,9 @@ func runC16(c *Case, out func(string)) {
 		return
 	case "race":
 		runC16Race(c, out)
+		return
+	case "infolat":
+		runC16InfoLatency(c, out)
 		return
 	}
 	mode := hdrVal(c.Hdr, "mode", "replica")
